@@ -39,6 +39,7 @@ extern void dispatch_async_and_wait_f(dispatch_queue_t q, void *ctxt, dispatch_f
 extern void dispatch_barrier_async_and_wait(dispatch_queue_t q, dispatch_block_t b);
 extern void dispatch_barrier_async_and_wait_f(dispatch_queue_t q, void *ctxt, dispatch_function_t f);
 extern void dispatch_queue_set_width(dispatch_queue_t dq, long width);
+extern void dispatch_source_cancel_and_wait(dispatch_source_t ds);
 extern struct _dispatch_hw_configs_s { uint32_t logical_cpus, physical_cpus, active_cpus; } _dispatch_hw_config;
 
 /* ---- run context ---- */
